@@ -50,6 +50,13 @@ def ignore_configs(bytes_mode):
         ('two', [('ignore', ('str', ' ')), ('ignore', ('re', '_+', False))], ' _'),
         ('three', [('ignore', ('str', ' ')), ('irule', 'Under', ('str', '_')), ('ignore', ('re', '~+', False))], ' _~'),
         ('alt', [('ignore', ('alt', [('str', ' '), ('str', '_')]))], ' _'),
+        # ignore patterns made of several literals: the inner literals skip ignorable text too
+        ('anon-seq', [('ignore', ('str', ' ')), ('ignore', ('seq', [('str', '<'), ('re', '[xy]+', False), ('str', '>')]))],
+         [' ', '<x>', '< y >', '<xy >', ' < x> ']),
+        ('named-seq', [('ignore', ('str', ' ')), ('irule', 'Comment', ('right', ('str', '<'), ('left', ('re', '[xy]+', False), ('str', '>'))))],
+         [' ', '<x>', '< y >', '<xy >', ' < x> ']),
+        ('anon-seq-first', [('ignore', ('seq', [('str', '<'), ('opt', ('str', 'x')), ('str', '>')])), ('irule', 'Space', ('re', ' +', False))],
+         [' ', '<>', '< x >', '<x >', '  <  >']),
     ]
 
 
@@ -101,7 +108,8 @@ def spaced_inputs(rng, base_inputs, ign_alpha, bytes_mode, per_input):
                 parts = []
                 for i in range(gaps):
                     if mask >> i & 1:
-                        parts.append(rng.choice(ign_alpha) * rng.choice([1, 1, 2]))
+                        parts.append(rng.choice(ign_alpha) * rng.choice([1, 1, 2]) if isinstance(ign_alpha, str)
+                                     else rng.choice(ign_alpha))
                     if i < len(s):
                         parts.append(s[i])
                 cands.append(''.join(parts))
@@ -110,7 +118,7 @@ def spaced_inputs(rng, base_inputs, ign_alpha, bytes_mode, per_input):
                 parts = []
                 for i in range(gaps):
                     if rng.random() < 0.4:
-                        parts.append(''.join(rng.choice(ign_alpha) for _ in range(rng.choice([1, 1, 2, 3]))))
+                        parts.append(''.join(rng.choice(ign_alpha) for _ in range(rng.choice([1, 1, 2, 3] if isinstance(ign_alpha, str) else [1, 1, 2]))))
                     if i < len(s):
                         parts.append(s[i])
                 cands.append(''.join(parts))
@@ -137,12 +145,15 @@ def shift_norm(v, at, k):
     return v
 
 
-def lengthening(rec, b, text, o, model, tag):
+def lengthening(rec, b, text, o, model, tag, unit=None):
     """Real-vs-real: insert k more ignorable characters inside a run that is being skipped."""
     runs = sorted(set(model.skips))[:3]
     for (q, e) in runs:
         for k in (1, 2, 5):
-            ins = text[q:q + 1] * k
+            # lengthen with the run's own first character, or -- for ignore patterns made of several
+            # literals, where repeating one character would destroy the pattern -- with a character
+            # that is an ignore pattern by itself
+            ins = (text[q:q + 1] if unit is None else (unit.encode() if isinstance(text, bytes) else unit)) * k
             t2 = text[:q] + ins + text[q:]
             o2 = observe.observe(b.g, t2)
             rec.case()
@@ -161,7 +172,7 @@ def lengthening(rec, b, text, o, model, tag):
                               want, c)
 
 
-def run_one(rec, G, inputs, tag, trace, relation=True):
+def run_one(rec, G, inputs, tag, trace, relation=True, unit=None):
     b = diff.build(rec, G, include_source=trace)
     if b is None:
         return
@@ -182,7 +193,7 @@ def run_one(rec, G, inputs, tag, trace, relation=True):
             rec.nontrivial((desc, text))
             rec.count('skip_events', len(model.skips))
             if relation and exp == o.outcome and rec.rng.random() < 0.25:
-                lengthening(rec, b, text, o, model, tag)
+                lengthening(rec, b, text, o, model, tag, unit)
         if tr is not None:
             viol = tr.run(text, None, o.outcome)
             rec.count('trace_events', tr.last_events)
@@ -229,7 +240,7 @@ def run_shard(rec):
                 G = with_ignore(G0, cstmts, after, sk)
                 ins = spaced_inputs(rng, base, ialpha, bytes_mode, 4)
                 run_one(rec, G, ins, tag + (ctx_name, cname, sk, 'after' if after else 'before'),
-                        trace=(idx % 3 == 0))
+                        trace=(idx % 3 == 0), unit=None if isinstance(ialpha, str) else ' ')
     # random multi-rule grammars with every ignore configuration
     n_random = 40 if quick else 900
     cfgs = ignore_configs(False)
@@ -247,7 +258,7 @@ def run_shard(rec):
         G = with_ignore(G0, cstmts, rng.random() < 0.5, sk)
         base = work.inputs_for('abA', 3)
         ins = spaced_inputs(rng, rng.sample(base, 25), ialpha, False, 3)
-        run_one(rec, G, ins, ('random', cname, sk), trace=(i % 3 == 0))
+        run_one(rec, G, ins, ('random', cname, sk), trace=(i % 3 == 0), unit=None if isinstance(ialpha, str) else ' ')
 
 
 def replay(rec, rep):
